@@ -1063,6 +1063,10 @@ func (g *G) FuncDef() string {
 			// ... or reading it under catch(): "identifier not found" now, a value once the name is (re)created
 			f.Ret, f.Cost, f.ReadsGlobals = TInt, 10, true
 			g.Funcs = append(g.Funcs, f)
+			if g.F.IncDec && r.Bool(.4) {
+				f.WritesGlobals = true
+				return fmt.Sprintf("func %s() { r9 := catch(%s++); if r9.err { 0 - 1 } else { 1 } }", name, tv)
+			}
 			return fmt.Sprintf("func %s() { r9 := catch(%s + %d); if r9.err { 0 - 1 } else { r9.value } }", name, tv, r.Intn(5))
 		}
 		f.Ret, f.Cost, f.ReadsGlobals, f.WritesGlobals = TBool, 10, true, true
